@@ -2,3 +2,6 @@ import PG.Props.C14
 #print axioms PG.C14_length
 #print axioms PG.C14_header
 #print axioms PG.C14_function
+#print axioms PG.C14_hash_ops_order_free
+#print axioms PG.C14_membership_order_indep
+#print axioms PG.C14_lookup_order_indep
